@@ -1304,7 +1304,7 @@ pub fn run_c05(args: &Args, model: &mut Model) -> Report {
             check_fsm(&c, true, model, &mut rep, "corpus");
         }
     }
-    let (mut np, mut nr, mut nf) = if args.thorough { (6000, 6000, 2500) } else { (500, 600, 260) };
+    let (mut np, mut nr, mut nf) = if args.thorough { (15000, 15000, 5000) } else { (500, 600, 260) };
     if !only("prims") {
         np = 0;
     }
